@@ -1,4 +1,5 @@
 import EdpVerif.Drv.Etf
+import EdpVerif.Impl.EqHash
 namespace Edp.Drv
 open Edp
 
@@ -11,6 +12,15 @@ def handleC11 : List String → Option String
     let a ← getTerm a
     let b ← getTerm b
     pure (ordText (Term.cmp a b))
+  -- tie: the model of the derived `PartialEq`
+  | ["c11eqv", a, b] => some <| run do
+    let a ← getTerm a
+    let b ← getTerm b
+    pure (if Term.eqv a b then "true" else "false")
+  -- tie: the byte stream `Hash::hash` feeds to the hasher
+  | ["c11hash", a] => some <| run do
+    let a ← getTerm a
+    pure (hexOf (Term.hashBytes a))
   | _ => none
 
 end Edp.Drv
